@@ -39,7 +39,16 @@ def cargo_build(workdir, args, env=None, timeout=3600):
     t0 = time.time()
     p = subprocess.run(cmd, cwd=workdir, env=cargo_env(env), stdout=subprocess.PIPE, stderr=subprocess.STDOUT, text=True, timeout=timeout)
     if p.returncode != 0:
-        tail = "\n".join(l for l in p.stdout.splitlines() if not l.startswith("warning") )[-6000:]
+        tail = "\n".join(l for l in p.stdout.splitlines() if not l.startswith("warning") and not l.startswith("{"))[-6000:]
+        if "--message-format=json" in args:
+            rendered = []
+            for l in p.stdout.splitlines():
+                if l.startswith("{") and '"level":"error"' in l:
+                    try:
+                        rendered.append(json.loads(l)["message"].get("rendered", ""))
+                    except (ValueError, KeyError):
+                        pass
+            tail = ("\n".join(rendered))[-6000:] + "\n" + tail
         e = MachineryError("cargo build failed in %s: %s\n%s" % (workdir, " ".join(cmd), tail))
         e.full_output = p.stdout
         raise e
